@@ -25,8 +25,9 @@ REQUIRED_PROBES = {"quick": ("short_write", "eagain", "size_above_buffer", "pace
 EVIDENCE = {
     "level": "exploration",
     "rule": ("seeded message sizes (1 byte .. 3 MiB, around the socket buffer size), socket buffer sizes, reader "
-             "pacings and optional RST; a run is non-trivial when at least one send() was short or hit EAGAIN; "
-             "distinct = distinct (buffer size, size-class multiset, pacing, path, fault, scheduler)"),
+             "pacings, optional RST or half-close, 1-3 sender threads on the protocol path; a run is non-trivial "
+             "when at least one send() was short or hit EAGAIN; distinct = distinct (buffer size, size-class "
+             "multiset, pacing, path, fault, scheduler)"),
     "real": ["secsgem.common.TcpConnection.send_data", "secsgem.common.TcpClientConnection/TcpServerConnection",
              "secsgem.hsms.HsmsProtocol._process_send_queue"],
     "stub": ["socket/select (SimSocket: finite send buffer, short counts, EAGAIN, EPIPE)", "raw paced reader"],
